@@ -948,3 +948,15 @@ def _seteq(ev, node):
     ia = list(ev.heap[a.oid].items) if isinstance(a, Ref) else list(a)
     ib = list(ev.heap[b.oid].items) if isinstance(b, Ref) else list(b)
     return len(ia) == len(ib) and all(any(x == y for y in ib) for x in ia)
+
+
+@specfn("Sec")
+def _sec(ev, node):
+    v = ev.e(node.args[0])
+    return concretize(SInt(to_int_term(v.sec)))
+
+
+@specfn("Micro")
+def _micro(ev, node):
+    v = ev.e(node.args[0])
+    return concretize(SInt(to_int_term(v.micro)))
